@@ -11,6 +11,7 @@
 package mcpx
 
 import (
+	"math"
 	"context"
 	"encoding/json"
 	"bufio"
@@ -49,6 +50,7 @@ type c01Spec struct {
 	Waiters    int       `json:"waiters"`
 	EndAt      int       `json:"end_ms"`
 	PostCalls  int       `json:"post_calls"`
+	Storm      int       `json:"storm,omitempty"` // client side: this many peer requests are parked in handlers when the reader hits EOF
 }
 
 func genC01(r *vh.Rand) c01Spec {
@@ -67,6 +69,8 @@ func genC01(r *vh.Rand) c01Spec {
 			cs.Write = "broken"
 		case x < 5:
 			cs.Write = "rejected"
+		case x < 6:
+			cs.Write = "unencodable" // params that cannot be JSON-encoded: the call fails before anything is written
 		}
 		cs.Resp = []string{"ok", "ok", "ok", "err", "err", "never", "twice", "wrongid", "strid", "inside"}[r.Intn(10)]
 		s.Calls = append(s.Calls, cs)
@@ -83,6 +87,17 @@ func genC01(r *vh.Rand) c01Spec {
 			if s.Calls[i].Resp == "inside" {
 				s.Calls[i].Resp = "ok"
 			}
+		}
+	}
+	if s.Side == "client" && r.Chance(1, 12) {
+		// Directed shape: the reader ends (EOF, the write side keeps working) at the very instant a
+		// burst of calls starts, while many peer requests are parked in handlers.
+		s.Storm = r.Range(16, 96)
+		t := r.Range(1, 4)
+		s.ReadFailAt, s.ReadFailEO, s.CloseAt = t, true, -1
+		s.Calls = nil
+		for i := 0; i < 8; i++ {
+			s.Calls = append(s.Calls, c01Call{N: i + 1, StartAt: t, CancelAt: -1, Write: "ok", Resp: "never"})
 		}
 	}
 	s.Waiters = r.Intn(3)
@@ -231,14 +246,28 @@ func runC01(c *vh.Case, spec c01Spec) {
 		server  *mcp.Server
 	)
 	if spec.Side == "client" {
-		client := mcp.NewClient(&mcp.Implementation{Name: "c", Version: "1"}, nil)
+		var copts *mcp.ClientOptions
+		if spec.Storm > 0 {
+			copts = &mcp.ClientOptions{CreateMessageHandler: func(ctx context.Context, _ *mcp.CreateMessageRequest) (*mcp.CreateMessageResult, error) {
+				<-ctx.Done() // parked until the session ends
+				return nil, ctx.Err()
+			}}
+		}
+		client := mcp.NewClient(&mcp.Implementation{Name: "c", Version: "1"}, copts)
 		cs, err := client.Connect(ctx, sc, &mcp.ClientSessionOptions{ProtocolVersion: "2025-06-18"})
 		if err != nil {
 			c.Inconclusive("client connect: %v", err)
 			return
 		}
+		for i := 0; i < spec.Storm; i++ {
+			sc.Inject(vhm.Req(fmt.Sprintf("storm-%d", i), "sampling/createMessage", `{"maxTokens":1,"messages":[{"role":"user","content":{"type":"text","text":"x"}}]}`))
+		}
 		doCall = func(ctx context.Context, n int) (string, error) {
-			res, err := cs.CallTool(ctx, &mcp.CallToolParams{Name: "echo", Arguments: map[string]any{"nonce": n}})
+			args := map[string]any{"nonce": n}
+			if byN[n].Write == "unencodable" {
+				args["bad"] = math.NaN()
+			}
+			res, err := cs.CallTool(ctx, &mcp.CallToolParams{Name: "echo", Arguments: args})
 			if err != nil {
 				return "", err
 			}
@@ -261,7 +290,11 @@ func runC01(c *vh.Case, spec c01Spec) {
 		sc.InjectWait(vhm.Req(nil, "notifications/initialized", `{}`))
 		synctestWait()
 		doCall = func(ctx context.Context, n int) (string, error) {
-			res, err := ss.ListRoots(ctx, &mcp.ListRootsParams{Meta: mcp.Meta{"nonce": n}})
+			meta := mcp.Meta{"nonce": n}
+			if byN[n].Write == "unencodable" {
+				meta["bad"] = math.NaN()
+			}
+			res, err := ss.ListRoots(ctx, &mcp.ListRootsParams{Meta: meta})
 			if err != nil {
 				return "", err
 			}
@@ -384,6 +417,8 @@ func classifyC01(payload string, err error) string {
 		return "wbroken"
 	case strings.Contains(err.Error(), "verif-rejected"):
 		return "wrejected"
+	case strings.Contains(err.Error(), "unsupported value"):
+		return "unencodable"
 	case strings.Contains(err.Error(), c01ReadErr):
 		return "readerr"
 	case errors.Is(err, io.EOF) || strings.Contains(err.Error(), "EOF"):
@@ -524,6 +559,21 @@ func decideC01(c *vh.Case, spec c01Spec) {
 		ctie := false
 		if t, ok := cancelT[n]; ok && t == st.T {
 			ctie = true
+		}
+		if cs.Write == "unencodable" {
+			// nothing can be sent: the call fails at once, with the encoding error (or, on a session that
+			// is already shutting down, as closed), and leaves no trace in the session
+			switch {
+			case written:
+				c.Violate("unencodable-call-written", "call %d has params that cannot be encoded, yet a request was written", n)
+			case r.T != st.T:
+				c.Violate("not-prompt", "call %d (unencodable params) started at %dus returned at %dus", n, st.T, r.T)
+			case outcome == "unencodable" || (outcome == "closed" && shut <= st.T) || (outcome == "ctx" && ctie) || (outcome == "readerr" && readFail <= st.T):
+				faults++
+			default:
+				c.Violate("wrong-outcome", "call %d (unencodable params) returned %q (err %q)", n, outcome, fstr(r, "err"))
+			}
+			continue
 		}
 		if !written {
 			// The request never reached the transport: the session refused it, which it may
